@@ -5,7 +5,7 @@
    row pointer never written, NULL dereference. *)
 From Coq Require Import Floats.
 From mathcomp Require Import all_ssreflect.
-From LS Require Import NumOps F64Ops Containers ContSpec ContSpec2.
+From LS Require Import NumOps F64Ops Containers ContSpec ContSpec2 ContSpec3.
 Set Implicit Arguments. Unset Strict Implicit. Unset Printing Implicit Defensive.
 
 Section AnyNumbers.
@@ -37,6 +37,15 @@ Proof. exact: m_delrow_ok. Qed.
 Theorem C14_delete_column m r c A col : mrep m r c A -> col < c ->
   exists2 m', m_delcol m col = ROk m' & mrep m' r c.-1 (map (fun row => take col row ++ drop col.+1 row) A).
 Proof. exact: m_delcol_ok. Qed.
+(* getMatrixRow / getMatrixColumn: a fresh vector with the row / column, nothing out of range *)
+Theorem C14_get_row m r c A row : mrep m r c A ->
+  if row < r then exists2 v, m_getrow m row = ROk (Some v) & vrep v (nth [::] A row) else m_getrow m row = ROk None.
+Proof. exact: m_getrow_ok. Qed.
+Theorem C14_get_column m r c A col : mrep m r c A ->
+  if col < c then exists2 v, m_getcol m col = ROk (Some v) & vrep v [seq nth k0 row col | row <- A] else m_getcol m col = ROk None.
+Proof. exact: m_getcol_ok. Qed.
+Theorem C14_vector_sort v l : vrep v l -> exists2 v', v_sort v = ROk v' & vrep v' (foldr ins [::] l).
+Proof. exact: v_sort_ok. Qed.
 Theorem C14_new_vector n : exists2 v, v_new n = ROk v & vrep v (nseq n k0) /\ size (vdata v) = n.
 Proof. exact: v_new_ok. Qed.
 Theorem C14_new_matrix r c : exists2 m, m_new r c = ROk m & mrep m r c (nseq r (nseq c k0)).
@@ -100,6 +109,9 @@ Print Assumptions C14_matrix_histories_all.
 Print Assumptions C14_matrix_copy.
 Print Assumptions C14_delete_row.
 Print Assumptions C14_delete_column.
+Print Assumptions C14_get_row.
+Print Assumptions C14_get_column.
+Print Assumptions C14_vector_sort.
 Print Assumptions C14_new_vector.
 Print Assumptions C14_new_matrix.
 Print Assumptions C14_vector_copy.
